@@ -162,6 +162,13 @@ pub fn wasm(sink: &mut Sink, seed: u64, thorough: bool, alphabet: &str, behaviou
     for k in [1usize, 17, 100, 1273, 1663, 1664, 2000, 7089] { qcontents.push("7".repeat(k)); qcontents.push("a".repeat(k)); }
     for _ in 0..(if thorough { 300 } else { 40 }) { let len = r.gen_range(0..200); let md = r.gen_range(0..3); qcontents.push(String::from_utf8_lossy(&payload(&mut r, md, len, false)).to_string()); }
     for c in &qcontents { let id = sink.id(); sink.emit(&wasm_qr_event(id, "wasmqr", c)); }
+    // contents that need large versions, with options
+    for (i, n) in [700usize, 1200, 1600, 1663].into_iter().enumerate() {
+        let content = if i % 2 == 0 { "a".repeat(n) } else { format!("{}caf\u{e9}", "b".repeat(n - 5)) };
+        let prog = vec![WCall::Margin(i), WCall::Shape(i % 6), WCall::ModuleColor(OK_COLORS[i % 8].to_string()), WCall::Image("logo.png".to_string()), WCall::ImagePosition(vec![40.0 + i as f64, 41.5])];
+        let id = sink.id();
+        sink.emit(&wasm_svg_event(id, "wasmbig", &content, &prog));
+    }
     // longer seeded programs over concrete pools
     for i in 0..(if thorough { 4000 } else { 600 }) {
         let len = r.gen_range(1..9);
